@@ -12,3 +12,9 @@ func init() {
 		NotDecided: []string{"nothing numeric is needed for this property"},
 		Assumes:    []string{"a Condition carrying a System* flag always becomes an error (decided by C03.R1/R3), so such returns need not deliver a complete value", "math/big mod/ref table", "hand summaries of (*BigInt).inner / noescape"}})
 }
+
+func init() {
+	registerProperty(&PropertyDef{ID: "C01", Title: "Add/Sub/Mul/Quo/Abs/Neg/Round return the exactly rounded result",
+		Rules:   []string{"C01.R1", "C01.R2", "C01.R3", "C01.R4", "C20.R1", "C20.R2", "C09.R1"},
+		Explain: "tbd", NotDecided: []string{"tbd"}})
+}
